@@ -101,7 +101,7 @@ def duplicated_history_cases(ctx):
              "verify": {"op": "verify", "at": ""}, "verifydh": {"op": "verifydh", "at": ""}, "diff": {"op": "diff", "at": ""}, "info": {"op": "info", "at": ""},
              "infosf": {"op": "infosf", "at": "", "file": "top.txt"}, "flatten": {"op": "flatten", "at": ""}}[cmd]
         ops.append(c)
-        scs.append({"seed": i, "profile": "c05-duplicate", "root": "root", "tree": tree, "ops": ops, "c05": {"hist": victim, "edit": edit, "cmd": cmd, "expect": 33 if edit == "remove" else 31}})
+        scs.append({"seed": i, "profile": "c05-duplicate", "impl_only": True, "root": "root", "tree": tree, "ops": ops, "c05": {"hist": victim, "edit": edit, "cmd": cmd, "expect": 33 if edit == "remove" else 31}})
     r = pool.run_pool(scs, monitor=monitor, with_model=False)
     return r["fails"]
 
